@@ -449,6 +449,7 @@ class StmtMixin(object):
         from .absint import Flow
         fl = Flow()
         exits = []
+        brks = []          # states leaving through `break`: they skip the loop's else clause
         names = self.assigned_in(body_stmts) | self.assigned_in([node.target] if hasattr(node, "target") else [])
         # ---- peeled first iteration
         after = []
@@ -459,7 +460,7 @@ class StmtMixin(object):
                 b = self.exec_block(ctx, ins, body_stmts)
                 after.extend(b.fall)
                 after.extend(b.cont)
-                exits.extend(b.brk)
+                brks.extend(b.brk)
                 fl.ret.extend(b.ret)
         after = self.prune(after)
         if after:
@@ -487,7 +488,7 @@ class StmtMixin(object):
                 if not bad:
                     exits.extend(outs)
                     if b is not None:
-                        exits.extend(b.brk)
+                        brks.extend(b.brk)
                         fl.ret.extend(b.ret)
                     break
                 # drop failing candidates and retry from a weaker head (discard raises of the failed attempt)
@@ -503,12 +504,12 @@ class StmtMixin(object):
             fl.absorb(e)
         else:
             fl.fall.extend(exits)
+        fl.fall.extend(brks)
         return fl
 
     def st_While(self, ctx, st, node):
         def enter(ctx_, s):
             return self.branch(ctx_, s, node.test)
-        # break exits skip the else clause; handled approximately (no while/else with break in the library)
         return self.run_loop(ctx, [st], node, enter, node.body)
 
     def st_For(self, ctx, st, node):
@@ -580,6 +581,12 @@ class StmtMixin(object):
             return (e if e is not None else VSym(fresh("elem"))), st
         if isinstance(it, VBytes) or (isinstance(it, VConst) and isinstance(it.v, bytes)):
             return VSym(fresh("byte"), kind="int"), st
+        if isinstance(it, VSym) and it.kind == "count":
+            sy = ("nonneg", fresh("counted"))
+            define(sy, [Lin.sym(sy)])
+            k = it.t[2]
+            start = Lin({a_: b_ for a_, b_ in k[0]}, k[1])
+            return VInt(start + Lin.sym(sy)), st
         if isinstance(it, VSym):
             fs = [f for f in st.facts(it.t) if f[0] == "elemcls"]
             cls = fs[0][1] if fs else None
